@@ -2,7 +2,8 @@
    descriptors and tables equal the committed Pinned snapshot (kernel-evaluated); hence the library's encoder (the model
    at Gen.env) produces exactly the bytes of the independent renderer `Spec.render` applied to the PINNED schema, for every
    value (canonical or not), and decoding agrees with the pinned schema in the other direction. -/
-import FinProto.Obl.Pinned
+import FinProto.Obl.SPinnedTables
+import FinProto.Obl.SPinnedTypes
 import FinProto.Props.RenderEq
 namespace FinProto.Obl
 open FinProto
